@@ -16,7 +16,7 @@ LEVEL = "exploration"
 RULE = ("enumeration, sharded: all 3600 product ids; all 13149 dates 2014-01-01..2049-12-31 as scene ids (random orbit/frame); "
         "all 20 scan suffixes; file names = file type x polarisation(5 incl. none) x product id x scan variant(21) on a rotating "
         "date (quick: 20k sampled shapes, thorough: all ~3.8e5); near-misses: every single-character replacement by one "
-        "representative of each character class, every single deletion, insertions and trailing garbage on sampled valid strings "
+        "representative of each character class (incl. non-ASCII decimal digits and letters), every single deletion, insertions and trailing garbage on sampled valid strings "
         "(quick ~6k, thorough ~60k), classified by the independent recogniser; 96 (quick) / 600 (thorough) ids end to end. "
         "evaluations = strings decoded; distinct = distinct strings")
 ASSUMPTIONS = ["two-digit years are resolved relative to the current year (2026 => 1976..2075), which covers 2014..2049",
@@ -25,7 +25,7 @@ ASSUMPTIONS = ["two-digit years are resolved relative to the current year (2026 
                "near-misses are single edits of strings whose date lies in 2014..2049 (multi-edit strings such as '011305' -> 2005-01-13 via dateutil's month/day swap are outside the stated quantifier; recorded in DESIGN.md)"]
 REQUIRED_OBS = ["product_ids", "scene_dates", "file_names", "near_misses_rejected", "group_names"]
 NSHARD = 32
-CLASS_REPS = "A9_.-h "
+CLASS_REPS = "A9_.-h \u0663\uff13\u00c4"  # incl. an Arabic-Indic digit, a full-width digit and a non-ASCII capital
 
 
 def n_cases(tier, seed):
